@@ -90,11 +90,22 @@ def _child(ob_name, tier, seed, conn):
         res = ob.run(ob, tier, seed)
         res.time_s = time.time() - t0
     except MemoryError:
-        res = Result(UNDECIDED, detail="prover memory limit reached (VERIF_MEM_GB)", time_s=time.time() - t0)
+        res = None
     except BaseException as e:  # noqa: BLE001
-        res = Result(ERROR, detail=f"{type(e).__name__}: {e}\n{traceback.format_exc()[-3000:]}", time_s=time.time() - t0)
+        try:
+            res = Result(ERROR, detail=f"{type(e).__name__}: {e}\n{traceback.format_exc()[-3000:]}", time_s=time.time() - t0)
+        except MemoryError:
+            res = None
     try:
+        if res is None:
+            # out of memory: drop everything that can be dropped before talking to the parent
+            import gc
+
+            gc.collect()
+            res = Result(UNDECIDED, detail="prover memory limit reached (VERIF_MEM_GB)", time_s=time.time() - t0)
         conn.send(dataclasses.asdict(res))
+    except MemoryError:
+        os._exit(86)  # exit code understood by the parent as "memory limit"
     finally:
         conn.close()
 
@@ -103,8 +114,8 @@ def _dead_worker(p):
     """A worker that was killed by a signal (the kernel's OOM killer, an external kill) ran into a resource limit: undecided.
     A worker that exits on its own without a result is a checker error."""
     code = p.exitcode
-    if code is not None and code < 0:
-        return Result(UNDECIDED, detail=f"prover process killed by signal {-code} (memory / resource limit)")
+    if code is not None and (code < 0 or code == 86):
+        return Result(UNDECIDED, detail=f"prover process ended by {'signal ' + str(-code) if code < 0 else 'its memory limit'} (memory / resource limit)")
     return Result(ERROR, detail=f"worker exited with code {code} without a result")
 
 
